@@ -24,7 +24,8 @@ INSERTS = ["\n", "\n\n", "00", "FF", ":", "##", "#>", " ", "=", "0x", "load", "R
            "#>CHECK_FWVER VERSIONDESC=*\n", "#>CHECK_FWVER\n", "##load: 1\n", "#>CRC 0x1234567890\n",
            "#>CRC\n", "##Firmware: 99999 x\n", "#>SELECT FILTER=\n", "#>SELECT_IF PROTOCOL=FOO\n",
            "#>SELECT FILTER=01 01\n", "##Firmware: 1100 X         D-20.07\n", ":0000FE00\n", ":0000FF00\n",
-           "G", "\r", "\t", "\x0b", "\x85", " ", "١", "ä"]
+           "G", "\r", "\t", "\x0b", "\x85", " ", "١", "ä",
+           "#>load\n", "#>load a=1\n", "##SELECT: abc\n", "##CHECK_FWVER: x\n", "##SELECT_IF: x\n", "##REBOOT: 1\n", "##CRC: zz\n", "##Firmware:\n"]
 
 
 def mutate(r, t, ascii_only=False):
